@@ -221,14 +221,19 @@ LEVEL_TEXT = ("Proof (Coq, all theorems closed under the global context): the re
               "(C02_total, C02_faithful_total); back ends agree on the skeleton (C02_backends_agree_partial) and are the same program, "
               "hence produce the same document without any erasure, on the back-end independent fragment (C02_backends_same_fragment); "
               "code verbatim under O_lexer_concat and refuted for a newline-stripping lexer. The model is tied to base.py/sphinx_.py by "
-              "the source translation Gen/RenderSrc.v (copy_attributes, renderInlineAsText and 17 render methods regenerated "
-              "statement by statement on every run and proved equal to the hand-written model: C02_faithful_src, C02_image_alt_src), by "
+              "the source translation Gen/RenderSrc.v regenerated on every run and proved equal to the hand-written model "
+              "(copy_attributes, renderInlineAsText, clean_astext, the registry part of generate_heading_target and 17 render "
+              "methods statement by statement; render_heading, update_section_level_state, render_table, render_table_row from "
+              "statement templates whose parameters are read from the source; every other transcribed method, the Sphinx "
+              "overrides, the dispatch loops and the transforms pinned by source hash: C02_faithful_src, C02_image_alt_src), by "
               "Gen/Render.v (dispatch table, list style map, alignment classes, link dispatch order, raw literals - proved equal to the "
               "specification's fixed tables) and by differential correspondence on real token trees in all modes and both renderers; the "
               "statements of C02_faithful, of the totality premise and of tree-level back-end agreement after the documented erasure "
               "(Backends.erase_be) are themselves evaluated (extracted) on every correspondence case.")
 LEVEL_NOTE = ("Trusted: Coq kernel; the transcription in Doc/Render.v (correspondence-checked, not proved); markdown-it/docutils/Sphinx "
-              "library functions enter as oracles answered by the real functions; the result of a directive / role / substitution / "
+              "library functions enter as oracles answered by the real functions; 12 theorems: 9 full on their stated premises, 2 partial "
+              "(C02_backends_agree_partial = skeleton level, C02_code_verbatim_partial = under O_lexer_concat), 1 refuted; the "
+              "result of a directive / role / substitution / "
               "front-matter run is an oracle (recorded from the real run; runs that touch the document registries or return sections, "
               "transitions or tables are outside the model). Not proved: that docutils' registry operations never fail on reachable "
               "states (C02_total is 'up to the registry'); full-tree back-end agreement outside the back-end independent fragment "
